@@ -2,6 +2,7 @@ package main
 
 import (
 	"fmt"
+	"math/big"
 	"sort"
 	"go/constant"
 	"go/token"
@@ -614,14 +615,183 @@ func (ev *evaluator) quant(x *EQuant) Val {
 	if isTrue(body) || isFalse(body) {
 		return Val{t: body, typ: types.Typ[types.Bool]}
 	}
-	body = withTriggers(body, bound)
-	return Val{t: app(q+" ("+strings.Join(decl, " ")+")", "Bool", body), typ: types.Typ[types.Bool]}
+	bodies := quantBodies(body, bound)
+	var qs []*T
+	for _, bd := range bodies {
+		qs = append(qs, app(q+" ("+strings.Join(decl, " ")+")", "Bool", bd))
+	}
+	if len(qs) == 1 {
+		return Val{t: qs[0], typ: types.Typ[types.Bool]}
+	}
+	if x.Forall {
+		return Val{t: mkAnd(qs...), typ: types.Typ[types.Bool]}
+	}
+	return Val{t: mkOr(qs...), typ: types.Typ[types.Bool]}
 }
 
 // withTriggers annotates a quantifier body with explicit patterns when every bound variable
 // occurs as a direct argument of an uninterpreted application (ix, opaque/spec/seq functions,
 // bitof/setbit, apply): arithmetic-free triggers make instantiation predictable.
+// shiftBound: if the bound variable v occurs in trigger position only as (+ c v) with one ground c
+// (e.g. s[1+k]), rewrite the body over j = c + v, so that the trigger ix(off, j) has the variable as a
+// direct argument. Returns the new body (v replaced by (- v c), (+ c v) by v) — the binder is reused.
+func shiftBound(body *T, v string, force bool) (*T, bool) {
+	direct := false
+	var shift *T
+	consistent := true
+	viewShift := false
+	var scan func(t *T)
+	scan = func(t *T) {
+		if len(t.args) == 0 {
+			return
+		}
+		if t.op == "ix" && len(t.args) == 2 && len(t.args[1].args) == 0 && t.args[1].op == v {
+			// ix((+ o c), v): a view shifted by the numeral c
+			if u := t.args[0]; u.op == "+" && len(u.args) == 2 {
+				if _, isNum := numeralValue(u.args[1]); isNum {
+					if shift == nil {
+						shift = u.args[1]
+						viewShift = true
+					} else if !same(shift, u.args[1]) {
+						consistent = false
+					}
+				}
+			}
+		}
+		if triggerHead(t.op) {
+			for _, a := range t.args {
+				if len(a.args) == 0 && a.op == v {
+					direct = true
+				}
+				if a.op == "+" && len(a.args) == 2 {
+					var c *T
+					if len(a.args[1].args) == 0 && a.args[1].op == v {
+						c = a.args[0]
+					} else if len(a.args[0].args) == 0 && a.args[0].op == v {
+						c = a.args[1]
+					}
+					if c != nil {
+						at := map[string]bool{}
+						collectAtoms(c, at)
+						ground := true
+						for n := range at {
+							if strings.Contains(n, "!q") || strings.HasPrefix(n, "k!") {
+								ground = false
+							}
+						}
+						if !ground {
+							consistent = false
+						} else if shift == nil {
+							shift = c
+						} else if !same(shift, c) {
+							consistent = false
+						}
+					}
+				}
+			}
+		}
+		for _, a := range t.args {
+			scan(a)
+		}
+	}
+	scan(body)
+	if shift == nil || !consistent || (direct && !force) {
+		return body, false
+	}
+	vAtom := atom(v, "Int")
+	var subst func(t *T) *T
+	subst = func(t *T) *T {
+		if len(t.args) == 0 {
+			if t.op == v {
+				return app("-", "Int", vAtom, shift)
+			}
+			return t
+		}
+		if t.op == "+" && len(t.args) == 2 {
+			if (len(t.args[1].args) == 0 && t.args[1].op == v && same(t.args[0], shift)) || (len(t.args[0].args) == 0 && t.args[0].op == v && same(t.args[1], shift)) {
+				return vAtom
+			}
+		}
+		if viewShift && t.op == "ix" && len(t.args) == 2 && len(t.args[1].args) == 0 && t.args[1].op == v {
+			if u := t.args[0]; u.op == "+" && len(u.args) == 2 && same(u.args[1], shift) {
+				return app("ix", "Int", u.args[0], vAtom)
+			}
+		}
+		na := make([]*T, len(t.args))
+		changed := false
+		for i, a := range t.args {
+			na[i] = subst(a)
+			if na[i] != a {
+				changed = true
+			}
+		}
+		if !changed {
+			return t
+		}
+		return &T{op: t.op, args: na, sort: t.sort, bit: t.bit}
+	}
+	return subst(body), true
+}
+
+// quantBodies: the body annotated with triggers, plus (when a bound variable occurs both directly and in
+// shifted index position, e.g. s[1+k] == t[k]) an equivalent second body over the shifted variable, so that
+// ground terms of either shape trigger an instance.
+// twinGuards: for every view access ix((+ o c), e) in the body (c a numeral) the valid equation
+// ix((+ o c), e) = ix(o, c+e). Guarding the body with them is an equivalence, and it brings the twin
+// index terms into the query in whichever polarity the quantifier is used.
+func twinGuards(body *T) []*T {
+	seen := map[string]bool{}
+	var out []*T
+	var walk func(t *T)
+	walk = func(t *T) {
+		if len(t.args) == 0 {
+			return
+		}
+		if t.op == "ix" && len(t.args) == 2 {
+			if u := t.args[0]; u.op == "+" && len(u.args) == 2 {
+				if cv, ok := numeralValue(u.args[1]); ok {
+					k := t.String()
+					if !seen[k] {
+						seen[k] = true
+						var idx *T
+						if kv, ok2 := numeralValue(t.args[1]); ok2 {
+							idx = atom(new(big.Int).Add(cv, kv).String(), "Int")
+						} else {
+							idx = app("+", "Int", u.args[1], t.args[1])
+						}
+						out = append(out, mkEq(t, app("ix", "Int", u.args[0], idx)))
+					}
+				}
+			}
+		}
+		for _, a := range t.args {
+			walk(a)
+		}
+	}
+	walk(body)
+	return out
+}
+
+func quantBodies(body *T, bound []string) []*T {
+	if g := twinGuards(body); len(g) > 0 && len(g) <= 6 {
+		body = mkImp(mkAnd(g...), body)
+	}
+	out := []*T{withTriggers(body, bound)}
+	for _, b := range bound {
+		if alt, ok := shiftBound(body, b, true); ok {
+			if plain, ok2 := shiftBound(body, b, false); !ok2 || !same(plain, alt) {
+				out = append(out, withTriggers(alt, bound))
+				break
+			}
+		}
+	}
+	return out
+}
+
 func withTriggers(body *T, bound []string) *T {
+	for _, b := range bound {
+		body, _ = shiftBound(body, b, false)
+	}
 	isBound := map[string]bool{}
 	for _, b := range bound {
 		isBound[b] = true
@@ -860,6 +1030,15 @@ func (ev *evaluator) call(x *ECall) Val {
 			ev.fail("str needs a []byte")
 		}
 		return Val{t: ev.x.bytesToString(ev.st, a.t), typ: types.Typ[types.String]}
+	case "arrAt":
+		// arrAt(s, j): the element at absolute index j of the backing array of slice s
+		a := ev.eval(x.Args[0])
+		sl, ok := a.typ.Underlying().(*types.Slice)
+		if !ok {
+			ev.fail("arrAt needs a slice")
+		}
+		j := ev.toInt(ev.eval(x.Args[1]))
+		return Val{t: mkSelect(mkSelect(c.arrOf(ev.st, sl.Elem()), c.slRef(a.t)), j), typ: sl.Elem()}
 	case "offOf":
 		a := ev.eval(x.Args[0])
 		if _, ok := a.typ.Underlying().(*types.Slice); !ok {
